@@ -80,8 +80,9 @@ def _driver_hash():
     return h.hexdigest()[:12]
 
 
-def _cargo_env(cfg, target_dir, out=None, nonce=None):
+def _cargo_env(cfg, target_dir, out=None, nonce=None, crate='text2num'):
     env = dict(os.environ)
+    env['T2N_CRATE'] = crate
     env['CARGO_NET_OFFLINE'] = 'true'
     env['LD_LIBRARY_PATH'] = _sysroot_lib() + ':' + env.get('LD_LIBRARY_PATH', '')
     env['RUSTFLAGS'] = ('-Zmir-opt-level=0 -Awarnings ' + CONFIGS[cfg]).strip()
@@ -132,13 +133,13 @@ def ensure_deps_target(repo, cfg):
     return d
 
 
-def extract(repo, cfg='dbg', use_cache=True):
+def extract(repo, cfg='dbg', use_cache=True, crate='text2num'):
     """Return (facts_dict, meta). Always reflects the current working tree of `repo`."""
     t0 = time.time()
     ensure_driver()
     os.makedirs(CACHE, exist_ok=True)
     th = tree_hash(repo)
-    key = '%s-%s-%s' % (th[:24], cfg, _driver_hash())
+    key = '%s-%s-%s-%s' % (th[:24], cfg, _driver_hash(), crate)
     cached = os.path.join(CACHE, 'facts-%s.json' % key)
     if use_cache and os.path.exists(cached):
         try:
@@ -156,14 +157,14 @@ def extract(repo, cfg='dbg', use_cache=True):
             fp = os.path.join(target, 'debug', '.fingerprint')
             if os.path.isdir(fp):
                 for n in os.listdir(fp):
-                    if n.startswith('text2num-'):
+                    if n.startswith(crate + '-'):
                         shutil.rmtree(os.path.join(fp, n), ignore_errors=True)
         except ExtractionError:
             shutil.rmtree(target, ignore_errors=True)
         out = os.path.join(scratch, 'facts.json')
         nonce = uuid.uuid4().hex
         r = subprocess.run(['cargo', '+nightly', 'check', '--offline', '--lib'], cwd=repo,
-                           env=_cargo_env(cfg, target, out, nonce), capture_output=True, text=True)
+                           env=_cargo_env(cfg, target, out, nonce, crate), capture_output=True, text=True)
         if r.returncode != 0:
             raise ExtractionError('cargo check of %s failed (the tree must compile):\n%s' % (repo, r.stderr[-6000:]))
         if not os.path.exists(out):
@@ -249,6 +250,6 @@ class Facts:
         return parts[0] + ':' + parts[1] if len(parts) >= 2 else sp
 
 
-def load(repo, cfg='dbg'):
-    data, meta = extract(repo, cfg)
+def load(repo, cfg='dbg', crate='text2num'):
+    data, meta = extract(repo, cfg, crate=crate)
     return Facts(data, meta, repo)
